@@ -160,6 +160,14 @@ pub fn run(stim: &Value, rec: &Rec) {
     // through the header encoding
     let mut h = http::HeaderMap::new();
     built.add_header(&mut h).expect("add_header");
+    // every other status travels the way a peer that pads its base64 would send it (receivers must accept both forms)
+    if stim["code"].as_i64().unwrap_or(0) % 2 == 0 {
+        if let Some(v) = h.get("grpc-status-details-bin").cloned() {
+            let mut b = v.as_bytes().to_vec();
+            while b.len() % 4 != 0 { b.push(b'='); }
+            h.insert("grpc-status-details-bin", http::HeaderValue::from_bytes(&b).unwrap());
+        }
+    }
     let back = Status::from_header_map(&h).expect("status header present");
     rec.ev(json!({"e":"travelled","code":back.code() as i32,"msg":str_json(back.message()),"details":bytes_json(back.details())}));
     let vecr = back.check_error_details_vec();
